@@ -49,6 +49,10 @@ CLAIMED = {
    text="C02_sso_reply_target / _target_registered / _persisted_pair / _target_function: for every chain and every request, any URL-delivered reply and the persisted pair are "
         "the (Location, Binding) of one ACS entry registered for the SP storage returned for the Issuer; independent Go oracle on form action / Location / Destination / CreateAuthRequest arguments. "
         "Callback and logout targets are covered by the C01/C03/C13 models."),
+ "C04": dict(ref="5 C04", technique="Rocq/Coq proof about a model of the signer's and a conformant verifier's digest inputs and of the Redirect octets (generated BuildRedirectQuery) + in-Coq correspondence tied to emitted DigestValues + independent verifiers",
+   text="C04_enveloped (digest inputs agree on every tree without C14N-escaped characters), C04_enveloped_refuted (they differ as soon as one occurs: F-04b, known), C04_redirect (the octets a verifier rebuilds from the sent URL are the "
+        "signed ones, all inputs; F-04a fixed), C04_success_signature (which delivery carries which signature, all inputs), C04_never_unsigned_refuted (F-04c, known). Tie: each signed element of real artefacts goes to Coq with the "
+        "signer digest input whose hash equals the emitted DigestValue and with goxmldsig's canonical form; goxmldsig validates every enveloped signature, the Bindings 3.4.4.1 procedure every redirect URL. SHA / RSA and goxmldsig's reference processing are not modelled."),
  "C05": dict(ref="5 C05", technique="Rocq/Coq proof over the extracted chain with verification oracles + in-Coq correspondence against a simulated signing SP",
    text="C05_signatures / _persisted / _required_forms: an accepted request had the verification oracle answer positively on exactly (SAMLRequest, RelayState, SigAlg, Signature) resp. the posted document, "
         "and those values are what is persisted; required is recognised for true and 1. Two refutation witnesses (enveloped signature over Redirect, detached signature in a POST form) are proved and "
